@@ -40,6 +40,17 @@ class Ob:
         return cond
 
     def result(self, it=None, witness=None):
+        if isinstance(witness, (list, tuple)):
+            # [(substring of the failed requirement, witness name), ...]: first match on the first failure wins
+            chosen = None
+            for f in self.failures:
+                for sub, w in witness:
+                    if sub in f["what"]:
+                        chosen = w
+                        break
+                if chosen:
+                    break
+            witness = chosen or (witness[-1][1] if witness else None)
         d = {"id": self.id, "engine": "smt", "doc": self.doc, "bounds": self.bounds,
              "queries": self.queries + (it.queries if it else 0), "time_s": round(time.time() - self.t0, 2),
              "paths": self.paths, "truncated_paths": self.truncated, "source_fn": self.fn.name if self.fn else None}
@@ -395,7 +406,12 @@ def record_field_index(fns, what):
     raise mir.MirError("unknown field")
 
 
-def site_update_record(fns, suffix, bytes_version, file_hint="src/core/store/internal.rs", ts_tuple_local=None, identity_local=None, witness="c13_update_accounting"):
+UPDATE_WITNESSES = [("(b) ts_new", "c07_guarded_timestamp_check"), ("publishes nothing", "c01_failed_overwrite_is_harmless"),
+                    ("only after the memory reservation", "c01_failed_overwrite_is_harmless"), ("(e) ordered index", "c11_ttl_publish"),
+                    ("(c)", "c13_update_accounting"), ("", "c13_update_accounting")]
+
+
+def site_update_record(fns, suffix, bytes_version, file_hint="src/core/store/internal.rs", ts_tuple_local=None, identity_local=None, witness=UPDATE_WITNESSES):
     f = mir.find(fns, suffix, file_hint)
     ob = Ob("site" + suffix.replace("::", "_"), "%s: every path that replaces the entry (a) holds the entry guard, (b) has ts_new > current.timestamp in its "
             "path condition, (c) reserves saturating(new_size - size(CURRENT entry)) and releases size(CURRENT) - new_size, committing the reservation, "
@@ -436,9 +452,18 @@ def site_update_record(fns, suffix, bytes_version, file_hint="src/core/store/int
             ob.must_hold(not commits, "a path that publishes nothing commits no reservation")
             ob.must_hold(not events(p, "::release_memory"), "a path that publishes nothing releases no memory")
             ob.must_hold(not events(p, "Record::link_successor"), "a path that publishes nothing links no successor")
+            ob.must_hold(not events(p, "Atomic::store"), "a path that publishes nothing stores to no shared atomic (refcount / retired_at of the current generation stay untouched)")
+            ob.must_hold(not events(p, "::publish_to_tree") and not events(p, "::observe_published_timestamp"),
+                         "a path that publishes nothing touches neither the ordered index nor the version clock")
             continue
         reached += 1
         e_ins = ins[0]
+        # validate -> reserve -> publish: every effect on shared state comes after the last fallible step
+        fallible = [e for e in events(p, "::reserve_memory")]
+        if fallible:
+            last_f = idx_of(p, fallible[-1])
+            for e in events(p, "Atomic::store") + events(p, "Record::link_successor"):
+                ob.must_hold(idx_of(p, e) > last_f, "shared state of the current generation is modified only after the memory reservation succeeded (%s)" % e.callee.rsplit("::", 1)[-1])
         cur = guarded_entry_value(it, p)
         ob.must_hold(cur is not None, "replacement happens under an Occupied entry guard (entry.get())")
         if cur is None:
@@ -600,7 +625,7 @@ def site_delete(fns):
 
 
 def c07(fns, tier, env):
-    out = [site_update_record(fns, "::replace_record_if_current", False, file_hint="src/core/store/atomic.rs", ts_tuple_local="_5", identity_local="_3", witness="c07_lost_increment"),
+    out = [site_update_record(fns, "::replace_record_if_current", False, file_hint="src/core/store/atomic.rs", ts_tuple_local="_5", identity_local="_3", witness=[("(f)", "c07_lost_increment")] + UPDATE_WITNESSES),
            site_update_record(fns, "::update_record_with_ttl", False),
            site_delete(fns)]
     return finalize(out, env)
@@ -654,7 +679,7 @@ def site_update_ttl(fns):
 # ============================================================================ C08 sites + kernel
 def c08(fns, tier, env):
     lb = 3 if tier == "quick" else 5
-    out = [kernel_acquire_extent(fns, lb), site_load_value(fns), site_prepare_deferred(fns)]
+    out = [kernel_acquire_extent(fns, lb), site_load_value(fns), site_prepare_deferred(fns), site_cache_lookups_tagged(fns)]
     return finalize(out, env)
 
 
@@ -890,8 +915,51 @@ def panic_free(fns, f, oid, doc, bounds, pre=None, inline=(), loop_bound=1, max_
     return ob.result(it, witness=witness)
 
 
+def journal_entry_acceptance(fns):
+    """decode_slot, one ARBITRARY entry of the extents loop: accepted iff 16 <= sector, sectors >= 1, sector + sectors <= total"""
+    f = mir.find(fns, "::decode_slot", None)
+    ob = Ob("c03_journal_entry_acceptance", "allocation_journal::decode_slot, one arbitrary journal entry: it is accepted (pushed) exactly when it lies in the data area "
+            "and inside the device (16 <= sector, sectors >= 1, sector + sectors <= total_sectors) – an extent that ends exactly at the last block is valid – and "
+            "rejected as CorruptedRecord otherwise", "one arbitrary iteration of the entry loop; all u32 field values", f)
+    # header of the `for index in 0..count` loop: the block that calls Range::next
+    hdr = None
+    for bb, st in f.blocks.items():
+        if "Range<usize> as Iterator>::next" in st[-1]:
+            hdr = bb
+    if hdr is None:
+        raise mir.MirError("entry loop not found in decode_slot")
+    inl = {"::journal_image_size": mir.find(fns, "::journal_image_size", None)}
+    it = Interp(f, loop_bound=1, pure=PURE, inline=inl, slices=True)
+    total = z3.BitVec("total_sectors", 64)
+
+    def init(it_, st):
+        st["env"]["_2"] = total
+    accepted = rejected = 0
+    for p in it.run(init, start=hdr, stop=(hdr,)):
+        ob.paths += 1
+        if p.status not in ("backedge", "return"):
+            continue
+        vals = [e.ret for e in p.events if e.kind == "call" and e.callee.endswith("from_le_bytes") and z3.is_bv(e.ret) and e.ret.size() == 32]
+        if len(vals) < 2:
+            continue
+        sector = z3.ZeroExt(32, vals[0])
+        sectors = z3.ZeroExt(32, vals[1])
+        valid = z3.And(z3.UGE(sector, 16), z3.UGE(sectors, 1), z3.ULE(sector + sectors, total))
+        push = events(p, "Vec::push")
+        if p.status == "backedge" and push:
+            accepted += 1
+            ob.need(it, p.pc, valid, "an accepted entry is inside the data area and the device")
+        elif p.status == "return" and not push:
+            isok, _ = it.entails(p.pc, it.ctx.disc(it.as_u(p.ret)) == 0) if p.ret is not None else (False, None)
+            if not isok:
+                rejected += 1
+                ob.need(it, p.pc, z3.Not(valid), "an entry is rejected only if it is NOT a valid in-device extent")
+    ob.must_hold(accepted >= 1 and rejected >= 1, "accepting and rejecting paths of the entry loop were reached")
+    return ob.result(it, witness="c03_journal_extent_at_device_end")
+
+
 def c03(fns, tier, env):
-    return finalize([scan_iteration(fns)], env)
+    return finalize([scan_iteration(fns), journal_entry_acceptance(fns)], env)
 
 
 def c17(fns, tier, env):
@@ -909,9 +977,101 @@ def c17(fns, tier, env):
     return finalize(out, env)
 
 
+# ============================================================================ generation-tagged cache use by the read path
+def site_cache_lookups_tagged(fns):
+    ob = Ob("site_cache_lookups_are_generation_tagged", "the store's read path consults the value cache only through get_for_record(key, RECORD BEING RESOLVED) "
+            "and fills it only through insert_for_record: no store function calls the untagged ClockCache::get/insert/remove, and in resolve_record_value the "
+            "record handed to the lookup closure is the function's own `record` argument", "all store function bodies (MIR text) + every path of resolve_record_value", None)
+    store_fns = [f for n, f in fns.items() if "<impl at src/core/store/" in n]
+    ob.must_hold(len(store_fns) > 40, "store function bodies found in the MIR dump")
+    for f in store_fns:
+        for untagged in ("ClockCache::get(", "ClockCache::insert(", "ClockCache::remove("):
+            ob.must_hold(untagged not in f.text, "no untagged %s call in %s" % (untagged[:-1], f.name.rsplit("::", 2)[-1] if "closure" not in f.name else f.name[-60:]))
+    f = mir.find(fns, "::resolve_record_value", "src/core/store/operations.rs")
+    ob.fn = f
+    it = Interp(f, loop_bound=1, pure=PURE)
+    rec = z3.Const("record", U)
+    key = z3.Const("key", U)
+
+    def init(it_, st):
+        st["env"]["_2"] = key
+        st["env"]["_3"] = rec
+    saw = 0
+    for p in it.run(init):
+        ob.paths += 1
+        if p.status != "return":
+            continue
+        for e in p.events:
+            if e.kind == "call" and e.callee.endswith("::and_then") and len(e.args) == 2 and isinstance(e.args[1], mir.Tup):
+                saw += 1
+                caps = e.args[1].fields
+                ok = any(z3.is_expr(c) and c.sort() == U and it.entails(p.pc, c == rec)[0] for c in caps)
+                ob.queries += len(caps)
+                ob.must_hold(ok, "the cache-lookup closure captures the record being resolved")
+        ld = events(p, "::load_value_from_disk")
+        for e in ld:
+            ob.need(it, p.pc, it.as_u(e.args[1]) == rec, "the disk read is made for the record being resolved")
+    ob.must_hold(saw >= 1, "the cache lookup site was reached")
+    g = mir.find(fns, "::resolve_record_value::{closure#0}", "src/core/store/operations.rs")
+    it2 = Interp(g, loop_bound=1)
+    k2, r2 = z3.Const("cap_key", U), z3.Const("cap_record", U)
+
+    def init2(it_, st):
+        st["env"]["_1"] = mir.Tup([k2, r2])
+    for p in it2.run(init2):
+        if p.status != "return":
+            continue
+        gf = events(p, "ClockCache::get_for_record")
+        ob.must_hold(len(gf) == 1, "the lookup closure calls get_for_record exactly once")
+        for e in gf:
+            ob.need(it2, p.pc, z3.And(it2.as_u(e.args[1]) == k2, it2.as_u(e.args[2]) == r2), "lookup keyed by (key, captured record)")
+    return ob.result(it, witness="c08_stale_cache_generation")
+
+
+# ============================================================================ retirement queue: flush lock discipline
+def site_flush_pending_deletions(fns):
+    f = mir.find(fns, "::flush_pending_deletions", None)
+    ob = Ob("site_flush_pending_deletions_lock_order", "flush_pending_deletions takes the retirement `flush` mutex BEFORE it looks at the pending queue, on every path – "
+            "so a flusher that finds the queue empty has first waited for any batch another flusher already took but has not yet made durable "
+            "(force_flush may not acknowledge while a retirement is in another thread's hands)", "all paths", f)
+    it = Interp(f, loop_bound=1, pure=PURE)
+    for p in it.run():
+        ob.paths += 1
+        if p.status != "return":
+            continue
+        locks = [e for e in p.events if e.kind == "call" and e.callee.endswith("Mutex::lock")]
+        flush = [e for e in locks if ", ()>::lock" in getattr(e, "raw", "")]
+        pend = [e for e in locks if "Vec<WriteEntry>>::lock" in getattr(e, "raw", "")]
+        ob.must_hold(len(flush) == 1, "the flush mutex is taken exactly once on every path")
+        if flush and pend:
+            ob.must_hold(idx_of(p, flush[0]) < idx_of(p, pend[0]), "flush mutex before the pending-queue mutex")
+        empties = events(p, "Vec::is_empty") + events(p, "std::mem::take")
+        if flush and empties:
+            ob.must_hold(idx_of(p, flush[0]) < min(idx_of(p, e) for e in empties), "flush mutex before the queue is inspected or taken")
+        pd = events(p, "process_deletions")
+        if pd and flush:
+            ob.must_hold(idx_of(p, flush[0]) < idx_of(p, pd[0]), "markers are written under the flush mutex")
+    return ob.result(it, witness="c02_flush_waits_for_retirements")
+
+
 # ============================================================================ C16: cache accounting deltas
 def c16(fns, tier, env):
-    return finalize([site_cache_insert(fns), site_cache_remove(fns)], env)
+    return finalize([site_cache_insert(fns), site_cache_remove(fns), site_cache_lookups_tagged(fns)], env)
+
+
+def c02(fns, tier, env):
+    return finalize([site_flush_pending_deletions(fns)], env)
+
+
+def c01(fns, tier, env):
+    out = [site_update_record(fns, "::update_record_with_ttl", False),
+           site_update_record(fns, "::update_record_with_ttl_bytes", True),
+           site_update_record(fns, "::replace_record_if_current", False, file_hint="src/core/store/atomic.rs", ts_tuple_local="_5", identity_local="_3",
+                              witness=[("(f)", "c07_lost_increment")] + UPDATE_WITNESSES),
+           site_delete(fns), kernel_resolve_timestamp(fns)]
+    if tier == "thorough":
+        out += [site_insert_vacant(fns, "::insert_with_timestamp_and_ttl_internal"), site_insert_vacant(fns, "::insert_bytes_with_expiry")]
+    return finalize(out, env)
 
 
 def _field_writes(path, idx):
